@@ -217,6 +217,8 @@ def main():
             m = sys.modules[modname]
             if hasattr(m, "SymInt"):
                 m.SymInt = lambda t: concrete_symint(t)
+            if hasattr(m, "SymBool"):
+                m.SymBool = lambda t: bool(model.get(str(t), False))
 
     out = dict(function=K.name, cfg=cfg, clause=clause, runs=[])
 
@@ -349,7 +351,17 @@ def main():
         rt_now = (rt._ignore_errors, rt.guard, rt.LinComb.ONE, rt.bitlength)
         e = c.entry
         rt._ignore_errors, rt.guard, rt.LinComb.ONE, rt.bitlength = e["ie"], e["guard"], e["ONE"], e["bitlength"]
+        c.now = dict(ie=rt_now[0], guard=rt_now[1], ONE=rt_now[2])
         try:
+            if clause.endswith("@raise"):
+                if rec["outcome"] != "raise":
+                    return None
+                pe = K.post_exc(c, rec["exc_obj"], *args, **kwargs)
+                val = pe.get(clause[:-len("@raise")])
+                if val is None:
+                    return None
+                f = z3.simplify(sym.formula(val))
+                return True if z3.is_true(f) else (False if z3.is_false(f) else None)
             if base.startswith("R.") or base.startswith("G."):
                 raises = K.raises(c, *args, **kwargs)
                 if base == "G.inert":
